@@ -186,7 +186,9 @@ def diff_case(arg):
     ref_div = False
     with np.errstate(all="ignore"):
         try:
-            igral, err, n, rivals = a4.algorithm_4(f, a, b, tol, n_loops) if n_loops else a4.algorithm_4(f, a, b, tol)
+            # "to convergence" is capped: for a singular end point at a negative abscissa the reference never drops the too-narrow
+            # interval (its test lacks abs()) and would loop for ever; the comparison stays at equal evaluation counts
+            igral, err, n, rivals = a4.algorithm_4(f, a, b, tol, n_loops if n_loops else 1000)
             # the reference dropped an interval (too narrow / error at rounding level / more than max_ivals) iff it carries excess
             res["ref_dropped"] = bool(not rivals or err - sum(iv.err for iv in rivals) > 1e-9 * err)
         except a4.DivergentIntegralError as e:
